@@ -25,7 +25,7 @@ ASSUMPTIONS = [
     "a non-advancing repetition in a GETBULK column that has already left its root may be ignored or refused",
 ]
 PROBES = ["same_oid", "smaller_oid", "leave_and_return", "eom_midway", "bulk_nonadvance_later_rep",
-          "lenient", "faulty_raised", "all_advance", "empty_bulk_response", "eom_under_foreign_name", "get_marker_in_getnext_answer"]
+          "lenient", "faulty_raised", "all_advance", "empty_bulk_response", "eom_under_foreign_name", "get_marker_in_getnext_answer", "truncated_bulk_answers"]
 shrink_lists = [("dev",), ("universe",), ("roots",)]
 OPS = ["walk", "multiwalk", "bulkwalk", "table", "bulktable"]
 
@@ -74,8 +74,11 @@ def plan_for(tier: str, seed: int, i: int) -> dict:
     errors = rng.choice(["strict", "strict", "warn"])
     # another misbehaviour: from its k-th GETBULK request on the agent answers with an empty binding list (status 0)
     empty_from = rng.randrange(1, 4) if op in ("bulkwalk", "bulktable") and rng.random() < 0.15 else None
+    # ... and it may legally truncate its GETBULK answers (fewer repetitions, cut inside a repetition)
+    trng = rng_for(seed, ID, tier + ":trunc", i)
+    policies = trng.sample(["full", "fewer", "partial"], trng.randrange(1, 4)) if op in ("bulkwalk", "bulktable") else ["full"]
     return {"prop": ID, "op": op, "roots": roots, "universe": universe, "dev": dev,
-            "bulk": bulk, "errors": errors, "empty_from": empty_from,
+            "bulk": bulk, "errors": errors, "empty_from": empty_from, "policies": policies, "polseed": trng.getrandbits(32),
             "proto": {"version": "v2c", "community": "public"}}
 
 
@@ -96,6 +99,8 @@ def simplify(plan: dict):
         p = dict(plan); p["bulk"] = 1; yield p
     if plan["errors"] == "warn":
         p = dict(plan); p["errors"] = "strict"; yield p
+    if plan.get("policies") and plan["policies"] != ["full"]:
+        p = dict(plan); p["policies"] = ["full"]; yield p
     if plan.get("empty_from"):
         p = dict(plan); p["empty_from"] = None; yield p
         if plan["empty_from"] > 1:
@@ -147,6 +152,13 @@ def execute(plan: dict) -> dict:
                 return dict(resp, vbs=[])
         return resp
     agent.hook_pdu = hook_pdu
+    pols = plan.get("policies") or ["full"]
+
+    def policy(req: dict) -> tuple:
+        from ..loop import keyed as _keyed
+        pol = pols[_keyed(plan.get("polseed", 0), "pol", req["n"]) % len(pols)]
+        return (pol, 1 + _keyed(plan.get("polseed", 0), "k", req["n"]) % max(1, plan["bulk"]))
+    agent.bulk_policy = policy
     agent.successor_fn = succ
     agent.cap = 3 * (len(universe) + len(roots)) + 5
     w.add_agent(agent)
@@ -182,7 +194,9 @@ def execute(plan: dict) -> dict:
     reqs = [r for r in agent.requests if r["pdu"] is not None]
     requested: List[tuple] = []
     for r in reqs:
-        requested.extend(o for o, _ in r["pdu"]["vbs"])
+        # an OID that got no binding at all in a truncated answer has not been answered: asking again is not "again"
+        answered = len(r["resp_pdu"]["vbs"]) if r.get("resp_pdu") and r["pdu"]["tag"] == S.PDU_BULK else len(r["pdu"]["vbs"])
+        requested.extend(o for k, (o, _) in enumerate(r["pdu"]["vbs"]) if k < answered or not r.get("resp_pdu"))
     revealed = set()
     relevant_nonadv = any_nonadv = False
     classes = []
@@ -273,6 +287,7 @@ def execute(plan: dict) -> dict:
         "bulk_nonadvance_later_rep": int(op in ("bulkwalk", "bulktable") and any_nonadv and not relevant_nonadv),
         "lenient": int(lenient), "faulty_raised": int(excname == "FaultySNMPImplementation"),
         "all_advance": int(not any_nonadv), "empty_bulk_response": int(empty_served[0] > 0),
+        "truncated_bulk_answers": int(op in ("bulkwalk", "bulktable") and (plan.get("policies") or ["full"]) != ["full"]),
         "eom_under_foreign_name": int(any(v[0] == "eom" and o != q for q, _, (o, v) in served)),
         "get_marker_in_getnext_answer": int(any(v[0] in ("nsi", "nso") for _, _, (_, v) in served)),
     }
